@@ -71,6 +71,9 @@ pub enum Expect {
     /// The statement leaves it open (exotic but authentic shape): recorded, not judged -
     /// except that, if delivered, it must be identical.
     Any(&'static str),
+    /// Authentic under a key the receiver holds, but addressed to a group that is not mapped
+    /// to that key ("encrypted for another session"): must not be handed to any exchange.
+    Rejected(&'static str),
 }
 
 #[derive(Clone, Debug)]
@@ -143,7 +146,22 @@ pub fn gen_orig(rng: &mut Rng, kr: &mut Keyring, force_i0: Option<(usize, u16)>)
         // destinations mapped to this key set
         let mapped: Vec<u16> = if gk.key_set == 0 { vec![GROUP_IDS[0], GROUP_IDS[2]] } else { vec![GROUP_IDS[1]] };
         let mut expect = Expect::Delivered;
-        let (dst_uni, dst_grp, control) = match rng.below(10) {
+        // groups the receiver knows but maps to the OTHER key set
+        let mapped_elsewhere: Vec<u16> = if gk.key_set == 0 { vec![GROUP_IDS[1]] } else { vec![GROUP_IDS[0], GROUP_IDS[2]] };
+        let (dst_uni, dst_grp, control) = match rng.below(13) {
+            10 => {
+                expect = Expect::Rejected("unmapped-group/control");
+                (None, Some(GROUP_IDS[3]), true)
+            }
+            11 => {
+                let c = rng.bool();
+                expect = Expect::Rejected(if c { "group-mapped-to-other-key-set/control" } else { "group-mapped-to-other-key-set/data" });
+                (None, Some(*rng.pick(&mapped_elsewhere)), c)
+            }
+            12 => {
+                expect = Expect::Rejected("unmapped-group/data");
+                (None, Some(GROUP_IDS[3]), false)
+            }
             0 | 1 => (Some(R_NODE), None, true),
             2 => {
                 expect = Expect::Any("group-key-unicast-dst-data-message");
